@@ -99,6 +99,12 @@ type Layout struct {
 	BoxLevel    int  `json:"box_level,omitempty"`
 	ResLevel    int  `json:"res_level,omitempty"`
 	RotLevel    int  `json:"rot_level,omitempty"`
+	// Shadow: every ancestor ABOVE the node that carries an inheritable attribute carries a different decoy
+	// value for it, which the nearer definition must override (§7.7.3.4: "the value is inherited from an
+	// ancestor" only when the node itself does not define it).
+	Shadow      bool `json:"shadow,omitempty"`
+	// FilterArray1: a single filter is written as a one-element array (with its parameters still a dictionary)
+	FilterArray1 bool `json:"filter_array1,omitempty"`
 	ResIndirect bool `json:"res_indirect,omitempty"`  // /Resources is a reference
 	FontDictInd bool `json:"fontdict_ind,omitempty"`  // /Font sub-dictionary is a reference
 	ToUniFlate  bool `json:"touni_flate,omitempty"`   // ToUnicode streams are Flate-compressed
@@ -164,6 +170,8 @@ type (
 		// Chain is the filter chain in decode order; nil = unfiltered.
 		Chain []string
 		Pred  bool
+		// Array1: a single filter is written as a one-element array
+		Array1 bool
 		// NoIndirectLength forces a direct /Length (object streams and xref streams, §7.5.7/§7.5.8.2).
 		NoIndirectLength bool
 	}
